@@ -29,16 +29,18 @@ now *observed* by the C17 model checker rather than read off the source. Three o
 repaired defects were pointed out by authors of seeded changes while they read the tree
 (cpukinds allocated count, `hwloc_distances_release_remove` on adopted topologies) or were
 exposed by an input added to catch a seeded change (`chain.xml`, the NO_MEMATTRS
-configuration); each was first reproduced by the strengthened check. Round 5 added four:
+configuration); each was first reproduced by the strengthened check. Rounds 5 and 6 added five:
 the maintenance steps skipped under NO_DISTANCES / NO_MEMATTRS / NO_CPUKINDS (`1bb0db3`,
 found when those flag variants joined C17's reader topologies), `hwloc_topology_refresh()`
 storing into an adopted read-only mapping (`ad448c7`, pointed out by the author of a seeded
 change, reproduced once refresh() was driven on adopted topologies) and the `dont_merge`
 Group merged away by a restrict (`2859fdb`, a parent/child mix-up in
 `hwloc_filter_levels_keep_structure()`; raised by the C08 clause added at the very end of the
-previous session, seen as an alarm by `vp check`, triaged as a genuine defect); and a fourth,
+previous session, seen as an alarm by `vp check`, triaged as a genuine defect); a fourth,
 `hwloc_bitmap_singlify_per_core()` doing nothing when Cores sit at several depths (found by C09's
-new depth-2 states).
+new depth-2 states); and a fifth, the built-in XML exporter ignoring the length given to
+`hwloc_export_obj_userdata()` (pointed out by the author of a round-6 change, reproduced once C05's
+userdata table had a slice shorter than its buffer).
 
 ### 8.1 Repaired (`fix:` commits, in the order they were found)
 
@@ -81,7 +83,7 @@ ndet = sum(1 for r in rows if 'not detected' not in r[2])
 sec9 = '''## 9. Demonstrating detection
 
 **9.1 Seeded changes from fresh sub-agents.** Realistic property-breaking changes were
-obtained, in five rounds, from sub-agents that were given *only the text of the property*
+obtained, in six rounds, from sub-agents that were given *only the text of the property*
 and a scratch git worktree of `/repo` (nothing from `/verif`; in rounds 2 and 3 also the
 nicknames of the earlier changes, to push them towards other clauses; in rounds 4 and 5 the
 request stressed changes that need something specific to manifest: a multi-step sequence, an
@@ -96,8 +98,13 @@ kept as `seeded/<property>-<name>/` (patch.diff, the demonstration, the author's
 confirm.log, detect.json, meta.json). The checks were run against each
 (`seeded/run_against.py`: `git apply`, `./check <ID>`, `git checkout -- .`) on scratch
 worktrees of `/repo` through `VERIF_REPO`, with a scratch copy of `/verif`, so that `/repo`
-itself never held a seeded change while other checks were being built from it. A few agents
-returned a change that an earlier round already had (same hunk): those are kept once.
+itself never held a seeded change while other checks were being built from it. In rounds 5 and
+especially 6 (ten agents on the properties whose checks had just been strengthened) independent
+agents converged on hunks that earlier rounds already had - 10 of the 17 changes of round 6 were
+such repeats (`next_dist_id` not copied by dup, the `different_types` argument of the distances
+compaction, the reverse flag of the rollback loop, the header size in `get_length` ...): those are
+kept once; it also says that the plausible small mistakes around these functions are by now
+largely enumerated.
 **%d changes, %d detected by the quick tier; %d of them were missed at first and led to a
 strengthening, %d more were caught because the check had been strengthened before it was first
 run against them** (last column). Two changes are reported by the check of a neighbouring
